@@ -376,6 +376,23 @@ pub fn oracle(ctx: &mut Ctx) {
             expect("color_type_reduction", o.color_type_reduction, !(has("nc") || nx));
             expect("palette_reduction", o.palette_reduction, !(has("np") || nx));
             expect("grayscale_reduction", o.grayscale_reduction, !(has("ng") || nx));
+            // -i, --zc / -Z --zi, -f, --fast: explicit values win over any preset
+            let tok = |p: &str| fv.tokens.iter().find_map(|t| t.strip_prefix(p).map(|v| v.to_string()));
+            let want_il = match tok("i=").as_deref() { Some("0") => Some(0u8), Some("1") => Some(1), Some("keep") => None, _ => if nx { None } else { Some(0) } };
+            if o.interlace != want_il { wrong.push(format!("interlace is {:?}, the manual says {:?}", o.interlace, want_il)); }
+            if has("Z") {
+                let zi: u8 = tok("zi=").and_then(|v| v.parse().ok()).unwrap_or(15);
+                if o.deflate != Err(zi) { wrong.push(format!("compressor is {:?}, the manual says Zopfli with {} iterations", o.deflate, zi)); }
+            } else if let Some(z) = tok("zc=").and_then(|v| v.parse::<u8>().ok()) {
+                if o.deflate != Ok(z) { wrong.push(format!("compressor is {:?}, the manual says libdeflate level {}", o.deflate, z)); }
+            }
+            if let Some(list) = tok("f=") {
+                let mut want: Vec<u8> = list.split(',').filter_map(|x| x.parse().ok()).collect();
+                want.sort(); want.dedup();
+                let mut got = o.filter.clone(); got.sort();
+                if got != want { wrong.push(format!("filters are {:?}, the manual says {:?}", got, want)); }
+            }
+            if has("fast") && !o.fast_evaluation { wrong.push("fast evaluation is off although --fast was given".into()); }
             let display: [&[u8; 4]; 7] = [b"cICP", b"iCCP", b"sRGB", b"pHYs", b"acTL", b"fcTL", b"fdAT"];
             let set = |v: &Vec<[u8; 4]>| { let mut s: Vec<[u8; 4]> = v.clone(); s.sort(); s.dedup(); s };
             let want_strip: Option<HStrip> = fv.tokens.iter().find_map(|t| {
